@@ -110,7 +110,9 @@ def funcReturns (g : Cfg) (f : Func) : RegSet := (g.get f.exit).liveIn &&& retur
 def lintSaveToZero (g : Cfg) : List Diag :=
   g.nodes.toList.filterMap fun cn =>
     match cn.node.writesTo with
-    | some rd => if rd.val == 0 && !cn.node.canSkipSaveChecks then some (onReg "SaveToZero" rd) else none
+    | some rd =>
+      -- (a `nop` is written to do nothing)
+      if rd.val == 0 && !cn.node.canSkipSaveChecks && !cn.node.isNop then some (onReg "SaveToZero" rd) else none
     | none => none
 
 /-- what `DeadValueCheck` contributes at node `i` -/
@@ -123,7 +125,8 @@ def deadValueAt (g : Cfg) (i : Nat) : List Diag :=
   | none =>
     match cn.node.writesTo with
     | some d =>
-      if !RegSet.mem cn.liveOut d.val && !cn.node.canSkipSaveChecks then [onReg "DeadAssignment" d] else []
+      -- (the zero register holds no value that could go unused)
+      if !RegSet.mem cn.liveOut d.val && !cn.node.canSkipSaveChecks && d.val != 0 then [onReg "DeadAssignment" d] else []
     | none => []
 
 def lintDeadValue (g : Cfg) : List Diag := (List.range g.nodes.size).flatMap (deadValueAt g)
